@@ -202,6 +202,9 @@ func drainReply(call *RPCCall, reply *RPCReply) *RPCReply {
 		}
 		switch call.Header.Procedure {
 		case NFSPROC3_NULL:
+			// NULL has no status to carry a refusal in, and the caller has not been
+			// checked against any policy yet: do not answer it as a success
+			reply.AcceptStatus = SYSTEM_ERR
 			return reply
 		case NFSPROC3_GETATTR:
 			return nfsErrorReply(reply, NFSERR_JUKEBOX)
